@@ -46,7 +46,10 @@ var setC01 = [][2]string{{"oj.Parse", ""}, {"oj.ParseReader", "whole"}, {"oj.Val
 // C09 adds the chunked reader variants: position must not depend on chunking.
 var setC09 = [][2]string{{"oj.Parse", ""}, {"oj.ParseReader", "whole"}, {"oj.Validate1", ""}, {"oj.Tokenize1", ""}, {"gen.Parse", ""},
 	{"oj.ParseReader", "1"}, {"oj.ParseReader", "3"}, {"oj.ValidateReader1", "whole"}, {"oj.ValidateReader1", "1"}, {"oj.ValidateReader1", "3"},
-	{"oj.TokenizeLoad1", "whole"}, {"oj.TokenizeLoad1", "1"}, {"oj.TokenizeLoad1", "3"}, {"gen.ParseReader", "whole"}, {"gen.ParseReader", "1"}, {"gen.ParseReader", "3"}}
+	{"oj.TokenizeLoad1", "whole"}, {"oj.TokenizeLoad1", "1"}, {"oj.TokenizeLoad1", "3"}, {"gen.ParseReader", "whole"}, {"gen.ParseReader", "1"}, {"gen.ParseReader", "3"},
+	// readers that hand over their last bytes together with io.EOF (iotest.DataErrReader) and that return half of what is asked for
+	{"oj.ParseReader", "dataerr"}, {"oj.ValidateReader1", "dataerr"}, {"oj.TokenizeLoad1", "dataerr"}, {"gen.ParseReader", "dataerr"},
+	{"oj.ParseReader", "half"}, {"oj.ValidateReader1", "half"}, {"oj.TokenizeLoad1", "half"}, {"gen.ParseReader", "half"}}
 
 type group struct {
 	As []string `json:"as"`
